@@ -303,6 +303,8 @@ class Composition(Loggable):
                 updated = self._update_recursive(c, chain, local_time)
                 if updated is not None:
                     return updated
+                # nothing to update upstream of c: it is not part of the active chain anymore
+                del chain[c]
 
         if isinstance(comp, ITimeComponent):
             if comp.status != ComponentStatus.FINISHED:
